@@ -1,5 +1,5 @@
 # replay of a bounded stand-in violation (C06): re-run native/c06_measure.py
 import sys
-print('post-selected heterodyne on mode 0 of 2: gaussian and bosonic conditional states differ (max 0.00124)')
+print('bosonic MeasureThreshold on mode 0, outcome 1 (probability 0.276): mode 1 has (<n>, <x>, <p>) = [0.4458, 0.8919, 0.3447], the conditional state has [0.3615, 0.5974, 0.469]')
 print('REPLAY-VIOLATION')
 sys.exit(1)
